@@ -133,7 +133,7 @@ def _decide(agent, markets):
         ttls = menu.get("ttl", [None])
         ttl = ttls[g.choice(f"{tag}_ttl", len(ttls))] if len(ttls) > 1 else ttls[0]
         if ttl == "sym":
-            ttl = g.int(f"{tag}_ttlv", 1, 3)
+            ttl = g.int(f"{tag}_ttlv", 1, menu.get("ttl_hi", 3))
         if "vol_fixed" in (per_agent or {}):
             v = per_agent["vol_fixed"]
         elif "vol_hi" in (per_agent or {}):
